@@ -1,4 +1,5 @@
 import LyModel.Diff.Lemmas13Rev
+import LyModel.Diff.LemmasRevSwitch
 /-!
 # C13 helper lemmas: the round trip at the top level, and `KeyOrder` for string leaf-lists
 -/
@@ -18,7 +19,7 @@ theorem reverse_roundtrip {S : Schema} {fx : Fixes} (K : KeyOrder S) {A D : List
   rw [hdk] at hB hloc1 hback
   rw [hdkR] at hback
   obtain ⟨A', hA', hgA', _, hloc2, hres⟩ := hback B hgB hkB (fun _ _ => rfl)
-  refine ⟨B, R, A', ?_, hgB, hR, hRh, ?_, ?_⟩
+  refine ⟨B, R, A', ?_, hgB, reverse_of_noUO (noUO_of_exactDiff hD) hR, hRh, ?_, ?_⟩
   · rw [apply_eq_applyF]; exact hB
   · rw [apply_eq_applyF, hRh]; exact hA'
   · apply normL_eq_of_look K (goodT_goodL hgA') (goodT_goodL hA)
